@@ -15,6 +15,7 @@ type fsGen struct {
 	nviews int
 	open   []int // handle ids handed out so far
 	tick   int64
+	queue  []string // pending lines of a multi-line template
 }
 
 type fsGenOpts struct {
@@ -173,6 +174,34 @@ var createPerms = []int{0o755, 0o644, 0o600, 0o700, 0o777, 0o666, 0o000, 0o400, 
 func (g *fsGen) next() string {
 	r := g.r
 	h := lib.Hex
+	if len(g.queue) > 0 {
+		l := g.queue[0]
+		g.queue = g.queue[1:]
+		return l
+	}
+	if g.opts.symlinks && r.Bool(2) {
+		// a chain of k symbolic links ending at a file, around the resolution budget, then queries through it
+		k := lib.Pick(r, []int{1, 2, 5, 38, 39, 40, 41, 42})
+		base := lib.Pick(r, []string{"/tmp", "/root"})
+		g.queue = append(g.queue, fmt.Sprintf("fs 0 writefile %s %s 420", h(base+"/end"), h("E")))
+		for i := k - 1; i >= 0; i-- {
+			tgt := fmt.Sprintf("%s/l%d", base, i+1)
+			if i == k-1 {
+				tgt = base + "/end"
+			}
+			if r.Bool(50) {
+				tgt = tgt[len(base)+1:] // relative sibling
+			}
+			g.queue = append(g.queue, fmt.Sprintf("fs 0 symlink %s %s", h(tgt), h(fmt.Sprintf("%s/l%d", base, i))))
+		}
+		for _, q := range []string{"stat", "lstat", "readfile", "evalsymlinks", "readlink"} {
+			g.queue = append(g.queue, fmt.Sprintf("fs 0 %s %s", q, h(base+"/l0")))
+		}
+		g.queue = append(g.queue, fmt.Sprintf("fs 0 removeall %s", h(base)))
+		l := g.queue[0]
+		g.queue = g.queue[1:]
+		return l
+	}
 	vid := 0
 	if g.opts.views && g.nviews > 1 && r.Bool(50) {
 		vid = r.Intn(g.nviews)
